@@ -515,6 +515,9 @@ pub fn run_scenario_family(sc: &Scenario, panic_at: u32, family: u8) -> RunOut {
         }
         drop(held_by_caller);
         drop(src);
+        if bogus_drops(0) > 0 {
+            out.viol.push(format!("{what}: {} destructor call(s) ran on memory that never held a constructed value (uninitialised or stale slots treated as live elements)", bogus_drops(0)));
+        }
         let dd = double_drops(0);
         if !dd.is_empty() && !out.viol.iter().any(|m| m.contains("dropped twice")) {
             out.viol.push(format!("{what}: after the follow-up and dropping the container, values with serial ids {:?} were dropped twice", dd));
